@@ -322,3 +322,175 @@ Proof.
   destruct (fields_okb_sound fields Hf) as [Hd Hn].
   apply (interp_of_flat fields _ Hd Hn fuel code pl sh m pl' sh' [] t HI Hfl).
 Qed.
+
+(* ================================================================================================== *)
+(* 5. the key-schedule specification on a schedule image = the model's passes                           *)
+(* ================================================================================================== *)
+Lemma loopT_is_sched_loop : forall (C : Type) (upd : half C -> half C -> rc6 -> half C) (next : state C -> state C) n tk r sched,
+  loopT (half C) (state C * rc6) (fun t => (next (fst t), rc_next (snd t)))
+        (fun t e => upd e (rows01 C (fst t)) (rc_next (snd t))) n (tk, r) sched
+  = sched_loop C n upd next tk r sched.
+Proof.
+  intros C upd next n. induction n as [|n IH]; intros tk r sched; [destruct sched; reflexivity|].
+  destruct sched as [|e rest]; [reflexivity|]. cbn [loopT sched_loop fst snd]. f_equal. apply IH.
+Qed.
+
+Section Model128.
+  Notation hb := (KernelSpecs2.half_bytes128 bool).
+  Notation T := (state byte * rc6)%type.
+  Definition encx128 (t : T) : mem bool := [reg_of_state128 bool (fst t)].
+  Definition enc1_128 (t : T) : mem bool := [reg_of_state128 bool (fst t); [bits_of_rc (snd t)]].
+
+  Lemma passx128_image : forall body next,
+    (forall tk slot pre, length pre = 8 ->
+       body [reg_of_state128 bool tk; pre ++ hb slot ++ []]
+       = [reg_of_state128 bool (next tk); pre ++ hb (hxor byte bxor8 slot (rows01 byte tk)) ++ []]) ->
+    forall n tk hdr sched back, length hdr = 8 -> n <= length sched ->
+    pass bool body 8 n (reg_of_state128 bool tk) [] (hdr ++ concat (map hb sched) ++ back)
+    = hdr ++ concat (map hb (sched_loop byte n (fun e k _ => hxor byte bxor8 e k) next tk rc_init sched)) ++ back.
+  Proof.
+    intros body next Hstep n tk hdr sched back Hh Hn. unfold pass.
+    change (reg_of_state128 bool tk :: []) with (encx128 (tk, rc_init)).
+    rewrite (loop_win_image (half byte) hb 8 hb128_len T encx128 body
+               (fun t => (next (fst t), rc_next (snd t))) (fun t e => hxor byte bxor8 e (rows01 byte (fst t)))).
+    - cbn [snd]. rewrite (loopT_is_sched_loop byte (fun e k _ => hxor byte bxor8 e k) next). reflexivity.
+    - intros t. discriminate.
+    - intros [tk0 r0] e pre Hp. cbn [encx128 fst snd nth tl].
+      pose proof (Hstep tk0 e pre Hp) as H. rewrite !app_nil_r in H. exact H.
+    - rewrite Hh. lia.
+    - exact Hn.
+  Qed.
+
+  Lemma pass1_128_image : forall tw n tk hdr sched back, length hdr = 8 -> n <= length sched ->
+    pass bool (k128_tk1_body bool xorb false true tw) 8 n (reg_of_state128 bool tk) (rc0 bool false)
+         (hdr ++ concat (map hb sched) ++ back)
+    = hdr ++ concat (map hb (sched_loop byte n (fun _ k r => hxor byte bxor8 k (const_half byte cnib8 byte0 tw r))
+                                        (next_tk1 byte) tk rc_init sched)) ++ back.
+  Proof.
+    intros tw n tk hdr sched back Hh Hn. unfold pass.
+    change (reg_of_state128 bool tk :: rc0 bool false) with (enc1_128 (tk, rc_init)).
+    rewrite (loop_win_image (half byte) hb 8 hb128_len T enc1_128 (k128_tk1_body bool xorb false true tw)
+               (fun t => (next_tk1 byte (fst t), rc_next (snd t)))
+               (fun t e => hxor byte bxor8 (rows01 byte (fst t)) (const_half byte cnib8 byte0 tw (rc_next (snd t))))).
+    - cbn [snd].
+      rewrite (loopT_is_sched_loop byte (fun _ k r => hxor byte bxor8 k (const_half byte cnib8 byte0 tw r)) (next_tk1 byte)).
+      reflexivity.
+    - intros t. discriminate.
+    - intros [tk0 r0] e pre Hp. cbn [enc1_128 fst snd nth tl].
+      pose proof (k128_tk1_body_step tw tk0 e pre [] r0 Hp) as H. rewrite !app_nil_r in H. exact H.
+    - rewrite Hh. lia.
+    - exact Hn.
+  Qed.
+End Model128.
+
+(* ---- set_key_inner (no tweak) on an image ---- *)
+From Skinny Require Import ProofsSkinny.
+Notation bitsb := (map (bits_of_c8 bool)).
+Definition rbytes (R : nat) : list (list bool) := bytes_of bool false 4 (const_bits bool false true 32 (N.of_nat R)).
+
+Lemma sched_loop_len : forall (C : Type) upd next n tk r (sched : list (half C)),
+  length (sched_loop C n upd next tk r sched) = length sched.
+Proof.
+  intros C upd next n. induction n as [|n IH]; intros tk r sched; [destruct sched; reflexivity|].
+  destruct sched as [|e rest]; [reflexivity|]. cbn [sched_loop length]. rewrite IH. reflexivity.
+Qed.
+Lemma bits_pad_to : forall n (l : list byte), bitsb (pad_to n l) = padb bool false n (bitsb l).
+Proof.
+  intros n l. unfold pad_to, padb, zeros. rewrite <- firstn_map, map_app, map_repeat'. reflexivity.
+Qed.
+Lemma rbytes_len : forall R, length (rbytes R) = 4.
+Proof. intros R. reflexivity. Qed.
+Lemma set_rounds_image : forall R (hdr rest : list (list bool)), length hdr = 8 ->
+  set_rounds bool false true R (hdr ++ rest) = (rbytes R ++ skipn 4 hdr) ++ rest.
+Proof.
+  intros R hdr rest Hh. unfold set_rounds, splice. cbn [firstn app plus]. fold (rbytes R). rewrite rbytes_len.
+  rewrite skipn_app. replace (4 - length hdr) with 0 by lia. cbn [skipn]. rewrite <- app_assoc. reflexivity.
+Qed.
+Lemma hdr'_len : forall R (hdr : list (list bool)), length hdr = 8 -> length (rbytes R ++ skipn 4 hdr) = 8.
+Proof. intros R hdr H. rewrite app_length, rbytes_len, skipn_length. lia. Qed.
+
+Section KeyModel128.
+  Notation hb := (KernelSpecs2.half_bytes128 bool).
+  Notation l2 := (lfsr2_8 bool xorb).
+  Notation l3 := (lfsr3_8 bool xorb).
+  Notation KS := (key_sched bool false true (k128_tk1_body bool xorb false true) (k128_tk2_body bool xorb false)
+                            (k128_tk3_body bool xorb false) 8 16 40 48 56).
+
+  Lemma tk_region128 : forall (l : list byte), padb bool false 16 (bitsb l) = reg_of_state128 bool (load128 (pad_to 16 l)).
+  Proof.
+    intros l. rewrite <- bits_pad_to. symmetry. apply reg_of_state128_load128. apply pad_to_length.
+  Qed.
+  Lemma tk_region128_full : forall (l : list byte), length l = 16 -> bitsb l = reg_of_state128 bool (load128 (pad_to 16 l)).
+  Proof. intros l H. rewrite (pad_to_id 16 l H). symmetry. apply reg_of_state128_load128. exact H. Qed.
+
+  Lemma bits_firstn : forall n (l : list byte), firstn n (bitsb l) = bitsb (firstn n l).
+  Proof. intros n l. apply firstn_map. Qed.
+  Lemma bits_skipn : forall n (l : list byte), skipn n (bitsb l) = bitsb (skipn n l).
+  Proof. intros n l. apply skipn_map. Qed.
+
+  Theorem key_sched128_model : forall (key hdr : list byte) (sched : list (half byte)) back r0,
+    16 <= length key <= 48 -> length hdr = 8 -> length sched = 56 ->
+    let ks' := set_key_inner byte bxor8 cnib8 l2 l3 16 load128 byte0 m128_rounds {| ks_rounds := r0; ks_sched := sched |} key None in
+    KS (length key) false (bitsb key) [] (bitsb hdr ++ concat (map hb sched) ++ back)
+    = (rbytes (N.to_nat (ks_rounds byte ks')) ++ skipn 4 (bitsb hdr)) ++ concat (map hb (ks_sched byte ks')) ++ back.
+  Proof.
+    intros key hdr sched back r0 Hk Hh Hs. cbv zeta.
+    assert (Hh' : length (bitsb hdr) = 8) by (rewrite map_length; exact Hh).
+    assert (L40 : 40 <= length sched) by (replace (length sched) with 56 by (symmetry; exact Hs); repeat constructor).
+    assert (L48 : 48 <= length sched) by (replace (length sched) with 56 by (symmetry; exact Hs); repeat constructor).
+    assert (L56 : 56 <= length sched) by (replace (length sched) with 56 by (symmetry; exact Hs); repeat constructor).
+    unfold key_sched, set_key_inner. cbn [negb ks_sched].
+    destruct (Nat.eqb (length key) 16) eqn:E1; [|destruct (Nat.leb (length key) (2 * 16)) eqn:E2].
+    - cbn [mk_ks ks_rounds ks_sched]. rewrite Nat2N.id.
+      change (m128_rounds 1) with 40. rewrite set_rounds_image by exact Hh'.
+      rewrite tk_region128.
+      rewrite (pass1_128_image false 40 _ _ sched back (hdr'_len 40 _ Hh') L40).
+      reflexivity.
+    - cbn [mk_ks ks_rounds ks_sched]. rewrite Nat2N.id.
+      change (m128_rounds 2) with 48. rewrite set_rounds_image by exact Hh'.
+      rewrite (bits_skipn 16 key), (bits_firstn 16 key), tk_region128.
+      rewrite (tk_region128_full (firstn 16 key)) by (rewrite firstn_length; lia).
+      rewrite (pass1_128_image false 48 _ _ sched back (hdr'_len 48 _ Hh') L48).
+      rewrite (passx128_image (k128_tk2_body bool xorb false) (next_tk2 byte l2)
+                 (fun tk slot pre Hp => k128_tk2_body_step tk slot pre [] Hp) 48 _ _ _ back (hdr'_len 48 _ Hh'))
+        by (eapply Nat.le_trans; [exact L48 | apply Nat.eq_le_incl; symmetry; apply sched_loop_len]).
+      reflexivity.
+    - cbn [mk_ks ks_rounds ks_sched]. rewrite Nat2N.id.
+      change (m128_rounds 3) with 56. rewrite set_rounds_image by exact Hh'.
+      rewrite (bits_skipn (2 * 16) key), (bits_skipn 16 key), (bits_firstn 16 key), (bits_firstn 16 (skipn 16 key)), tk_region128.
+      rewrite (tk_region128_full (firstn 16 key)) by (rewrite firstn_length; lia).
+      rewrite (tk_region128_full (firstn 16 (skipn 16 key))) by (rewrite firstn_length, skipn_length; apply Nat.leb_gt in E2; lia).
+      rewrite (pass1_128_image false 56 _ _ sched back (hdr'_len 56 _ Hh') L56).
+      rewrite (passx128_image (k128_tk2_body bool xorb false) (next_tk2 byte l2)
+                 (fun tk slot pre Hp => k128_tk2_body_step tk slot pre [] Hp) 56 _ _ _ back (hdr'_len 56 _ Hh'))
+        by (eapply Nat.le_trans; [exact L56 | apply Nat.eq_le_incl; symmetry; apply sched_loop_len]).
+      rewrite (passx128_image (k128_tk3_body bool xorb false) (next_tk3 byte l3)
+                 (fun tk slot pre Hp => k128_tk3_body_step tk slot pre [] Hp) 56 _ _ _ back (hdr'_len 56 _ Hh'))
+        by (eapply Nat.le_trans; [exact L56 | apply Nat.eq_le_incl; symmetry; etransitivity; [apply sched_loop_len | apply sched_loop_len]]).
+      reflexivity.
+  Qed.
+End KeyModel128.
+
+(* the observable result of skinny128_set_key(ks, key, size) on the byte image of a model schedule is the byte image of the
+   model's (hence, ProofsSkinny.m128_set_key_spec / _padding, the specification's) result, for every accepted size *)
+Theorem w_set_key128_model : forall (key hdr : list byte) (sched : list (half byte)) back r0 rest,
+  16 <= length key <= 48 -> length hdr = 8 -> length sched = 56 ->
+  let res := m128_set_key {| ks_rounds := r0; ks_sched := sched |} (Some key) (N.of_nat (length key)) in
+  fst res = 1%N /\
+  w_set_key128 bool xorb false true (length key)
+    ((bitsb hdr ++ concat (map (KernelSpecs2.half_bytes128 bool) sched) ++ back) :: bitsb key :: rest)
+  = [ (rbytes (N.to_nat (ks_rounds byte (snd res))) ++ skipn 4 (bitsb hdr))
+        ++ concat (map (KernelSpecs2.half_bytes128 bool) (ks_sched byte (snd res))) ++ back;
+      bitsb key ].
+Proof.
+  intros key hdr sched back r0 rest Hk Hh Hs. cbv zeta.
+  unfold m128_set_key, set_key.
+  assert (Hok : size_ok 16 (3 * 16) (N.of_nat (length key)) = true).
+  { unfold size_ok. apply andb_true_iff. split; apply N.leb_le; lia. }
+  rewrite Hok. cbn [fst snd]. split; [reflexivity|].
+  rewrite Nat2N.id, (pad_to_id (length key) key eq_refl).
+  unfold w_set_key128, w_set_key. unfold reg. cbn [nth].
+  rewrite firstn_all2 by (apply Nat.eq_le_incl, map_length).
+  f_equal. exact (key_sched128_model key hdr sched back r0 Hk Hh Hs).
+Qed.
+Print Assumptions w_set_key128_model.
